@@ -108,9 +108,13 @@ func (x *c16) bencode() *c16Format {
 			return ""
 		}
 		assertIs := func(o c16Op, s string) bool {
-			// the mapper d.StrAssert("s")
+			// the mapper d.StrAssert("s"). The byte is already known to be s (the scanner stops in
+			// front of its terminator, the container loop leaves only in front of 'e'), so the
+			// assertion is optional; one that asserts something else rejects every input.
+			asserted := false
 			for _, m := range c16Mappers(o.Call) {
 				if c, ok := m.(*ssa.Call); ok && c.Common().StaticCallee() != nil && c.Common().StaticCallee().Name() == "StrAssert" {
+					asserted = true
 					for _, v := range c16Mappers(c) {
 						if cs, ok := constString(v); ok && cs == s {
 							return true
@@ -118,7 +122,7 @@ func (x *c16) bencode() *c16Format {
 					}
 				}
 			}
-			return false
+			return !asserted
 		}
 		switch a.ch {
 		case "0":
@@ -133,7 +137,7 @@ func (x *c16) bencode() *c16Format {
 				if m := scan(fns[0], ':'); m != "" {
 					msg = m
 				} else if !(rd[0].Kind == "UTF8" && rd[0].Bits.eq(linC(8)) && assertIs(rd[0], ":")) {
-					msg = "separator is not one byte asserted to be \":\""
+					msg = "separator is not one byte (asserted, if at all, to be \":\")"
 				} else if got := ae.lin(rd[1].Call.Common().Args[2]).mulC(8); rd[1].Kind != "UTF8" || rd[1].Field != "value" || !got.eq(linA("$len").mulC(8)) {
 					msg = "value is not `length` bytes named value (" + got.String() + " bits)"
 				}
@@ -146,7 +150,7 @@ func (x *c16) bencode() *c16Format {
 				if m := scan(fns[0], 'e'); m != "" {
 					msg = m
 				} else if !(rd[0].Kind == "UTF8" && rd[0].Bits.eq(linC(8)) && assertIs(rd[0], "e")) {
-					msg = "integer end is not one byte asserted to be \"e\""
+					msg = "integer end is not one byte (asserted, if at all, to be \"e\")"
 				}
 			}
 		case "l", "d":
@@ -155,7 +159,7 @@ func (x *c16) bencode() *c16Format {
 			case len(arrs) != 1 || len(rd) != 1:
 				msg = "expected one array then the end byte; found " + c16OpsStr(ops)
 			case !(rd[0].Kind == "UTF8" && rd[0].Bits.eq(linC(8)) && assertIs(rd[0], "e")):
-				msg = "container end is not one byte asserted to be \"e\""
+				msg = "container end is not one byte (asserted, if at all, to be \"e\")"
 			default:
 				cl := c16FnArg(arrs[0], 1)
 				if cl == nil {
